@@ -914,6 +914,31 @@ type vfPeek struct {
 	SRTT                             float64
 }
 
+// vfTimersRunning names the association's timers that are still armed.
+func vfTimersRunning(a *Association) []string {
+	var out []string
+	for _, t := range []struct {
+		n string
+		t *rtxTimer
+	}{{"T1-init", a.t1Init}, {"T1-cookie", a.t1Cookie}, {"T2-shutdown", a.t2Shutdown}, {"T3-rtx", a.t3RTX}, {"T-reconfig", a.tReconfig}} {
+		if t.t != nil && t.t.isRunning() {
+			out = append(out, t.n)
+		}
+	}
+	if a.ackTimer != nil && a.ackTimer.isRunning() {
+		out = append(out, "delayed-ack")
+	}
+	a.timerMu.Lock()
+	if !a.rackDeadline.IsZero() {
+		out = append(out, "RACK")
+	}
+	if !a.ptoDeadline.IsZero() {
+		out = append(out, "PTO")
+	}
+	a.timerMu.Unlock()
+	return out
+}
+
 func vfPeekAssoc(a *Association) vfPeek {
 	a.lock.RLock()
 	defer a.lock.RUnlock()
